@@ -50,6 +50,9 @@ type Scenario struct {
 	SxStdin  string   `json:"sx_stdin"`
 	SigintMs int      `json:"sigint_after_ms"`     // live scans: interrupt sx after this long at the latest
 	SigintN  int      `json:"sigint_after_frames"` // ... or as soon as this many non-IPv6 frames were captured
+	FloodHex   string `json:"flood_hex"`        // a frame sent to sx's side of FloodIface again and again from the first probe until sx has exited
+	FloodIface string `json:"flood_iface"`
+	FloodUs    int    `json:"flood_every_us"`
 	TimeoutS int      `json:"timeout_s"`
 }
 
@@ -241,6 +244,21 @@ func main() {
 					add(name, true, buf[:n])
 					if n >= 14 && !(buf[12] == 0x86 && buf[13] == 0xdd) {
 						seen++
+						if seen == 1 && sc.FloodHex != "" && sc.FloodIface == name {
+							fb, _ := hex.DecodeString(sc.FloodHex)
+							go func() {
+								for {
+									mu.Lock()
+									st := stopped
+									mu.Unlock()
+									if st {
+										return
+									}
+									syscall.Sendto(fd, fb, 0, &syscall.SockaddrLinklayer{Protocol: htons(syscall.ETH_P_ALL), Ifindex: pi.Index})
+									time.Sleep(time.Duration(sc.FloodUs) * time.Microsecond)
+								}
+							}()
+						}
 						for _, in := range byIface[name][seen] {
 							if syscall.Sendto(fd, in, 0, &syscall.SockaddrLinklayer{Protocol: htons(syscall.ETH_P_ALL), Ifindex: pi.Index}) == nil {
 								mu.Lock()
